@@ -458,7 +458,9 @@ impl<'a, 'b> G<'a, 'b> {
                 }
                 (Some(names), 1) => {
                     forms.push("oid:name(number)".into());
-                    if self.src.chance(20) {
+                    // (not on the first arc: a label there that contradicts the number would make
+                    // the meaning of a bare name on the second arc debatable)
+                    if i > 0 && self.src.chance(20) {
                         forms.push("oid:wellknown-label-with-own-number".into());
                         format!("{}({a})", ["member-body", "standard", "question", "iso", "itu-t"][self.src.pick(5)])
                     } else {
